@@ -231,13 +231,15 @@ func c07Run(t *c07Type, pool int, prog []c07Op) (sig, what string) {
 				m.slack = true
 				m.nonNil = true
 			}
-		case "rmfirst", "rmlast", "rmall", "rmeven":
+		case "rmfirst", "rmfirst2", "rmlast", "rmall", "rmeven":
 			i := 0
 			n := len(m.ids)
 			pred := func(idx int) bool {
 				switch o.K {
 				case "rmfirst":
 					return idx == 0
+				case "rmfirst2": // two leading elements: two or more survivors are shifted across the new end
+					return idx < 2
 				case "rmlast":
 					return idx == n-1
 				case "rmeven":
@@ -465,6 +467,47 @@ func c07Main(t *testing.T, unit string, ctors []any, payloads map[string]func() 
 			}
 		}
 		rec(nil, d)
+		// NON-INITIAL start state: both slices of the pool already hold four elements (so that a filter can shift several
+		// survivors over several leftovers, and a copy finds a destination with live pointers beyond its length); every program
+		// of up to d-1 further operations (d-2 for the types that are not explored deeply), with "remove the first two" added
+		pre := []c07Op{{"app2", 0, 0}, {"app2", 0, 0}, {"app2", 1, 0}, {"app2", 1, 0}}
+		alpha = append(alpha, c07Op{"rmfirst2", 0, 0}, c07Op{"rmfirst2", 1, 0})
+		dd := d - 1
+		if dd > 3 {
+			dd = 3
+		}
+		var rec2 func(p []c07Op, left int)
+		rec2 = func(p []c07Op, left int) {
+			if len(p) > len(pre) {
+				ctx.R.Evals++
+				ctx.R.Trans++
+				sig, what := c07Run(ty, pool, p)
+				ctx.Nontrivial(vr.Hash(ty.name, fmt.Sprint(p)))
+				if sig != "" {
+					ctx.Violate(sig+":"+ty.name, what, c07Case{Type: ty.name, Pool: pool, Prog: append([]c07Op(nil), p...)})
+					ctx.Outcome(ty.name + ":" + strings.SplitN(sig, ":", 2)[0])
+					return
+				}
+				ctx.R.Traces++
+				ctx.Outcome(ty.name + ":ok")
+			}
+			if left == 0 {
+				return
+			}
+			for _, a := range alpha {
+				if len(p) == len(pre) {
+					n++
+					if !ctx.Mine(n) {
+						continue
+					}
+				}
+				if len(p) == len(pre)+1 && ctx.Expired() {
+					return
+				}
+				rec2(append(append([]c07Op(nil), p...), a), left-1)
+			}
+		}
+		rec2(pre, dd)
 	}
 	// read-only sweep
 	if ctx.Shard == 0 {
